@@ -125,10 +125,12 @@ Seeded == {Pseed(a, q, Tape3) : a \in {I(3), Pseq(<<I(3), I(4)>>, 1, 0)}, q \in 
           \cup {PseedShuf(a, Pshuffle(<<I(5), I(6), I(7)>>, r), Perm3) : a \in {I(3), Pseq(<<I(3), I(4)>>, 1, 0)}, r \in {1, 2}}
 SeededCtx == Seeded \cup {Pseq(<<s, I(1), s>>, 1, 0) : s \in Seeded} \cup {Plen(Pstutter(s, I(2)), 5) : s \in Seeded}
 
+Mid1 == Level(Items0, BaseLists, PlaceLists, FALSE)      \* every leaf / list, lean parameters
+Tiny3 == {Pseq(<<I(1), I(2), I(3)>>, 2, 1), Plen(Up, 3), Pclump(Pseq(<<I(1), I(2), I(3)>>, 1, 0), I(2))}
 Defd(X) == {p \in X : D(p, NV).ok}
 Exprs == CASE Mode = "d1" -> Defd(Depth1)
            [] Mode = "quick" -> Defd(Depth1 \cup Depth2(Defd(Core1)) \cup Seeded)
-           [] Mode = "thorough" -> Defd(Depth1 \cup Depth2(Defd(Depth1)) \cup SeededCtx)
+           [] Mode = "thorough" -> Defd(Depth1 \cup Depth2(Defd(Mid1)) \cup SeededCtx \cup Depth2(Defd(Depth2(Tiny3))))
            [] Mode = "d3" -> Defd(Depth2(Defd(Depth2(Tiny1))))
            [] Mode = "tiny" -> Defd(Tiny1 \cup {Pseed(I(3), Prand(<<I(5), I(6), I(7)>>, 2), Tape3)})
            [] Mode = "streams" -> Defd(Core1 \cup {Pseed(I(3), Prand(<<I(5), I(6), I(7)>>, 2), Tape3)})
